@@ -44,8 +44,22 @@ type vfC02RR struct {
 var (
 	// the unspecified addresses are what rules against DNS rebinding name
 	vfC02V4 = []string{"203.0.113.1", "203.0.113.2", "203.0.113.3", "192.0.2.99", "100.64.0.9", "0.0.0.0"}
-	vfC02V6 = []string{"2001:db8:aa::1", "2001:db8:aa::2", "2001:db8:bb::3", "fd00::9", "::"}
+	// the last one is an IPv4 address in its 4-in-6 form: it is the same address as 192.0.2.99 of the list above, and the
+	// rules that name it are written over the IPv4 literal (the only text form Go prints for it); it is for AAAA records
+	// only: an ipv6hint cannot carry it (miekg/dns refuses to pack it)
+	vfC02V6 = []string{"2001:db8:aa::1", "2001:db8:aa::2", "2001:db8:bb::3", "fd00::9", "::", "::ffff:192.0.2.99"}
 )
+
+// vfC02AddrText returns the text a rule has to name to match the address: the
+// canonical form, which for a 4-in-6 address is the IPv4 literal.
+func vfC02AddrText(ip string) (v string) {
+	v = net.ParseIP(ip).String()
+	if v != ip {
+		vfC02.Class("answer:ipv4_mapped_ipv6_address")
+	}
+
+	return v
+}
 
 func vfC02DrawAnswer(t *rapid.T, qname string, qtype uint16) (rrs []vfC02RR) {
 	owner := qname
@@ -78,7 +92,7 @@ func vfC02DrawAnswer(t *rapid.T, qname string, qtype uint16) (rrs []vfC02RR) {
 		case "aaaa":
 			ip := rapid.SampledFrom(vfC02V6).Draw(t, fmt.Sprintf("rr%d_ip", i))
 			hdr.Rrtype = dns.TypeAAAA
-			rrs = append(rrs, vfC02RR{Kind: k, Values: []string{ip}, V6Hint: []bool{false}, RR: &dns.AAAA{Hdr: hdr, AAAA: net.ParseIP(ip)}})
+			rrs = append(rrs, vfC02RR{Kind: k, Values: []string{vfC02AddrText(ip)}, V6Hint: []bool{false}, RR: &dns.AAAA{Hdr: hdr, AAAA: net.ParseIP(ip)}})
 		case "https":
 			hdr.Rrtype = dns.TypeHTTPS
 			h := &dns.HTTPS{SVCB: dns.SVCB{Hdr: hdr, Priority: 1, Target: "."}}
@@ -101,7 +115,7 @@ func vfC02DrawAnswer(t *rapid.T, qname string, qtype uint16) (rrs []vfC02RR) {
 				h.Value = append(h.Value, hint)
 			}
 			addV6 := func() {
-				ips := rapid.SliceOfNDistinct(rapid.SampledFrom(vfC02V6), 0, 2, rapid.ID[string]).Draw(t, fmt.Sprintf("rr%d_v6hint", i))
+				ips := rapid.SliceOfNDistinct(rapid.SampledFrom(vfC02V6[:5]), 0, 2, rapid.ID[string]).Draw(t, fmt.Sprintf("rr%d_v6hint", i))
 				if len(ips) == 0 {
 					return
 				}
